@@ -8,7 +8,7 @@ setQToFitTransform / setUToFitVelocity round trips on the implementation; the fo
 setQToFitTranslation, setUToFitAngularVelocity, setUToFitLinearVelocity) from a second random coordinate/speed set against the
 modelled per-mobilizer partial fitters and reversal wrappers (tags PFR PFT PFW PFL).  harness/C05_search.cpp (always run):
 implementation-only predicates incl. partial-fit sequences."""
-import os, collections
+import os, collections, concurrent.futures
 from vlib import *
 
 PROPS = ['Props/Properties_C05.v', 'Props/Properties_C05_jets.v', 'Props/Properties_C05_wave2.v', 'Props/Properties_C05_fit.v',
@@ -21,7 +21,7 @@ Extraction Language OCaml.
 Extraction "c05.ml" rep_X rep_H rep_V mob_X mob_H mob_N mob_NInv mob_NDot mob_fitQ mob_fitU rep_fitR rep_fitT rep_fitW rep_fitLV Hu mkSpec.
 '''
 
-def build(ctx):
+def build(ctx, probe_ok=None):
     d = ctx.bdir('corr'); os.makedirs(d, exist_ok=True)
     ok, built, log = ctx.coq_make(['C05/C05_Model.vo'])
     if not ok:
@@ -32,7 +32,7 @@ def build(ctx):
     open(os.path.join(d, 'drv.ml'), 'w').write(drv)
     if not ctx.ocaml(d, ['c05.mli', 'c05.ml', 'drv.ml'], 'drv'):
         ctx.broken.append(('correspondence:C05', 'ocaml driver build failed')); return None
-    if not ctx.cxx(os.path.join(VERIF, 'harness', 'C05_probe.cpp'), os.path.join(d, 'C05_probe')):
+    if not (probe_ok.result() if probe_ok is not None else ctx.cxx(os.path.join(VERIF, 'harness', 'C05_probe.cpp'), os.path.join(d, 'C05_probe'))):
         ctx.broken.append(('correspondence:C05', 'C++ probe does not compile against current source')); return None
     return d
 
@@ -112,10 +112,10 @@ def run_corr(ctx, d, n, rtol=1e-9, atol=1e-11):
         ctx.report(key, '%s: fitting the mobilizer to its own %s does not reproduce it' % (name, 'pose' if what == 'fitQ' else 'velocity'),
                    dict(info, replay_cmd='%s %d %d' % (os.path.join(d, 'C05_probe'), ctx.seed, n)))
 
-def search(ctx, n):
+def search(ctx, n, search_ok=None):
     """failing-input search on the implementation alone"""
     exe = ctx.bdir('C05_search')
-    if not ctx.cxx(os.path.join(VERIF, 'harness', 'C05_search.cpp'), exe):
+    if not (search_ok.result() if search_ok is not None else ctx.cxx(os.path.join(VERIF, 'harness', 'C05_search.cpp'), exe)):
         ctx.broken.append(('search:C05', 'search harness does not compile')); return
     rc, out, err = sh([exe, str(ctx.seed), str(n)], timeout=1800)
     fails = [l for l in out.split('\n') if l.startswith('FAIL')]
@@ -130,9 +130,14 @@ def search(ctx, n):
 
 def run(ctx):
     ctx.build_repo()
+    # the two C++ harnesses are compiled in the background while the Coq obligations are checked
+    pool = concurrent.futures.ThreadPoolExecutor(2)
+    os.makedirs(ctx.bdir('corr'), exist_ok=True)
+    probe_ok = pool.submit(ctx.cxx, os.path.join(VERIF, 'harness', 'C05_probe.cpp'), os.path.join(ctx.bdir('corr'), 'C05_probe'))
+    search_ok = pool.submit(ctx.cxx, os.path.join(VERIF, 'harness', 'C05_search.cpp'), ctx.bdir('C05_search'))
     ctx.translate('rot')
     ctx.coq_props(PROPS)
-    d = build(ctx)
+    d = build(ctx, probe_ok)
     if d:
         run_corr(ctx, d, 17 * (24 if ctx.tier == 'quick' else 400))   # + 6 fixed regression cases run first by the probe
     ctx.cov['rule'] = ('single-mobilizer systems, type cycling over the 17 built-in mobilizers, random direction (forward/Reverse), random '
@@ -144,5 +149,5 @@ def run(ctx):
                         'the catalogue is hand-written from the public documentation; Ellipsoid point rule (p = radii .* Mz) is taken from the implementation header since the public header only says "on the surface"',
                         'atan2-based fitters are modelled with Ratan2 (built from atan); theorems about them are restricted to the regular branch']
     # the implementation-side predicates (incl. the partial-fit sequences) are cheap and independent of the model: always evaluated
-    search(ctx, 17 * (60 if ctx.tier == 'quick' else 600))
+    search(ctx, 17 * (60 if ctx.tier == 'quick' else 600), search_ok)
     ctx.finish()
